@@ -147,6 +147,8 @@ struct World {
     /// quiet mode: iterations without packets, events or end are only counted (`idle d n`)
     quiet: bool,
     idle: Vec<u64>,
+    /// dense polling: `run` additionally steps every daemon at every multiple of this many ms
+    dense: u64,
 }
 
 fn drain(chans: &mut Vec<(usize, u64, Chan, bool)>, out: &mut Vec<String>) {
@@ -305,6 +307,19 @@ impl World {
                     }
                 }
             }
+            // dense polling: the next poll instant, if it comes before the earliest wake-up
+            if self.dense > 0 {
+                let next_poll = (self.sim.now() / self.dense + 1) * self.dense;
+                if next_poll <= until && best.map_or(true, |(w, _)| next_poll < w) {
+                    self.sim.set_now(next_poll);
+                    for d in 0..n {
+                        if self.sim.ended(d).is_none() {
+                            self.step(d);
+                        }
+                    }
+                    continue;
+                }
+            }
             match best {
                 None => break,
                 Some((w, d)) => {
@@ -365,7 +380,18 @@ pub fn exec(_op: &str, t: &mut Toks) -> Option<String> {
     let rest: Vec<&str> = std::iter::from_fn(|| t.tok()).collect();
     let script = rest.join(" ");
     let cmds: Vec<String> = script.split(" ; ").map(|s| s.trim().to_string()).filter(|s| !s.is_empty()).collect();
-    let r = std::panic::catch_unwind(move || run_script(&cmds));
+    if _op == "sim2" {
+        // the same history under two schedulers: event-driven, and polled every 50 ms
+        let c2 = cmds.clone();
+        let a = std::panic::catch_unwind(move || run_script(&cmds, 0));
+        let b = std::panic::catch_unwind(move || run_script(&c2, 50));
+        return Some(match (a, b) {
+            (Ok(Some(a)), Ok(Some(b))) => format!("{} ;; {}", a, b),
+            (Ok(None), _) | (_, Ok(None)) => return None,
+            _ => "harness-panic".to_string(),
+        });
+    }
+    let r = std::panic::catch_unwind(move || run_script(&cmds, 0));
     Some(match r {
         Ok(Some(s)) => s,
         Ok(None) => return None,
@@ -373,7 +399,7 @@ pub fn exec(_op: &str, t: &mut Toks) -> Option<String> {
     })
 }
 
-fn run_script(cmds: &[String]) -> Option<String> {
+fn run_script(cmds: &[String], dense: u64) -> Option<String> {
     let mut w = World {
         sim: Sim::new(1_000_000),
         chans: vec![],
@@ -385,6 +411,7 @@ fn run_script(cmds: &[String]) -> Option<String> {
         pending_rx: vec![],
         quiet: false,
         idle: vec![],
+        dense,
     };
     for (ci, c) in cmds.iter().enumerate() {
         let mut t = Toks::new(c);
